@@ -213,8 +213,13 @@ func (server *Server) Validate(ctx context.Context, opts ...ValidationOption) (e
 		return errors.New("server URL has mismatched { and }")
 	}
 
-	if opening != len(server.Variables) {
-		return errors.New("server has undeclared variables")
+	// Every {name} of the URL has to be declared; a variable may be used more than once
+	for _, part := range strings.Split(server.URL, "{")[1:] {
+		if i := strings.IndexByte(part, '}'); i >= 0 {
+			if _, ok := server.Variables[part[:i]]; !ok {
+				return errors.New("server has undeclared variables")
+			}
+		}
 	}
 
 	variables := make([]string, 0, len(server.Variables))
